@@ -120,6 +120,7 @@ func runC17(r *simrt.Run, tier Tier) Outcome {
 	var wantH map[string]string
 	if !diverges {
 		want, wantH = refKeys(ref, setCols)
+		_ = wantH
 	}
 	cfg := drawStoreCfg(r)
 	cfg.InlineFacts = true
@@ -188,6 +189,7 @@ func runC17(r *simrt.Run, tier Tier) Outcome {
 		}()
 		r.OrderPolicy, r.OrderSeed = simrt.OrderAsc, 0
 		ctx := fmt.Sprintf("limit=%d %s temporal-store-configured=%v\nprogram (%s):\n%s", L, cfg, withTemporal, map[bool]string{true: "infinite model: " + tmpl, false: "finite model"}[diverges], src)
+		_ = hashes
 		if over != nil {
 			return Violation("C17/unbounded-creation", "evaluation created %d facts, more than the bound %d for this limit and program size\n%s", over.n, budget, ctx)
 		}
@@ -209,24 +211,11 @@ func runC17(r *simrt.Run, tier Tier) Outcome {
 		oks++
 		okLimits = append(okLimits, L)
 		if diverges {
-			// known finding (C06 hash conflation): deep lists/pairs hash alike, the
-			// engine then sees a false fixpoint. Only judged outside that domain.
-			var rf []Fact
-			for _, f := range ref.Facts {
-				rf = append(rf, f)
-			}
-			if x, y, ok := HashCollision(FactHashes(rf, setCols)); ok {
-				r.Logf("known hash-conflation domain: %s / %s", x, y)
-				return Outcome{Discard: "known:hash-collision"}
-			}
 			return Violation("C17/silent-partial", "evaluation of a program with an infinite model returned without error (store has %d facts)\n%s", len(facts), ctx)
 		}
 		got := resortSets(facts, setCols)
 		missing, extra := DiffSets(want, got)
 		if len(missing)+len(extra) > 0 {
-			if _, _, ok := HashCollision(wantH, hashes); ok {
-				return Outcome{Discard: "known:hash-collision"}
-			}
 			cls := "C17/silent-partial"
 			if len(missing) == 0 {
 				cls = "C17/extra-fact"
